@@ -246,48 +246,39 @@ func c14Shapes(c *Ctx, a *absVariant) {
 		r.Fatal("variant %s: pushRecovery/popRecovery missing", vn)
 		return
 	}
-	ps := push.Type.Params.List
-	labels, expr := ps[0].Names[0].Name, ps[1].Names[0].Name
-	grow, fill := false, false
-	fillVar := ""
-	ast.Inspect(push.Body, func(n ast.Node) bool {
-		switch x := n.(type) {
-		case *ast.AssignStmt:
-			l, rr := nospace(x.Lhs[0]), nospace(x.Rhs[0])
-			if l == "p.recoveryStack" && (rr == "append(p.recoveryStack,nil)" || rr == "p.recoveryStack[:len(p.recoveryStack)+1]") {
-				grow = true
-			}
-		case *ast.RangeStmt:
-			if nospace(x.X) == labels && x.Value != nil && len(x.Body.List) == 1 {
-				if as, ok := x.Body.List[0].(*ast.AssignStmt); ok && strings.HasSuffix(nospace(as.Lhs[0]), "["+nospace(x.Value)+"]") && nospace(as.Rhs[0]) == expr {
-					fill = true
-					fillVar = strings.TrimSuffix(nospace(as.Lhs[0]), "["+nospace(x.Value)+"]")
-				}
-			}
-		}
-		return true
-	})
-	fresh := freshTopSlot(push, "recoveryStack")
-	installedIsFilled := false
-	ast.Inspect(push.Body, func(n ast.Node) bool {
-		if as, ok := n.(*ast.AssignStmt); ok && nospace(as.Lhs[0]) == "p.recoveryStack[len(p.recoveryStack)-1]" && nospace(as.Rhs[0]) == fillVar {
-			installedIsFilled = true
-		}
-		return true
-	})
-	detail := fmt.Sprintf("grow=%t fill=%t installed-map-is-the-filled-one=%t", grow, fill, installedIsFilled)
-	if fresh != "" {
-		detail += "; " + fresh
+	pn := paramNames(push)
+	if len(pn) != 2 {
+		r.Unk("C14-a2", "T.pushRecovery:shape", vn, a.V.Where(push.Pos()), "unexpected parameter list")
+		return
 	}
-	r.Check(grow && fill && installedIsFilled && fresh == "", "C14-a2", "T.pushRecovery:shape", vn, a.V.Where(push.Pos()), "grow by one; a fresh map sends every label to the expression; installed at the top", detail)
-	shrink := false
-	ast.Inspect(pop.Body, func(n ast.Node) bool {
-		if as, ok := n.(*ast.AssignStmt); ok && nospace(as.Lhs[0]) == "p.recoveryStack" && nospace(as.Rhs[0]) == "p.recoveryStack[:len(p.recoveryStack)-1]" && len(guardsOf(pop.Body, as.Pos())) == 0 {
-			shrink = true
+	labels, expr := pn[0], pn[1]
+	paths := c.vnorm(a.V).normPaths(push)
+	sem := pushSemantics(paths, "recoveryStack")
+	// the map at the new top sends every label to the recovery expression
+	fill := len(paths) > 0
+	for pi, p := range paths {
+		m := sem.TopMap[pi]
+		lo, hi := loopSpan(p, "range "+labels)
+		okFill := false
+		for i := lo + 1; lo >= 0 && i < hi && i < len(p); i++ {
+			if p[i].Kind == "set" && p[i].Text == m+"["+labels+"[#1]]="+expr {
+				okFill = true
+			}
+			if p[i].Kind == "+" || p[i].Kind == "branch" {
+				okFill = false
+				break
+			}
 		}
-		return true
-	})
-	r.Check(shrink, "C14-a2", "T.popRecovery:shape", vn, a.V.Where(pop.Pos()), "stack shortened by one", "popRecovery does not shorten the stack by exactly one on every path")
+		if !okFill {
+			fill = false
+		}
+	}
+	detail := fmt.Sprintf("grow=%t every-label-mapped-in-the-installed-map=%t", sem.Grow, fill)
+	if sem.FreshTop != "" {
+		detail += "; " + sem.FreshTop
+	}
+	r.Check(sem.Grow && fill && sem.FreshTop == "", "C14-a2", "T.pushRecovery:shape", vn, a.V.Where(push.Pos()), "grow by one; a fresh map sends every label to the expression; installed at the top", detail)
+	r.Check(popShortensByOne(c.vnorm(a.V).normPaths(pop), "recoveryStack"), "C14-a2", "T.popRecovery:shape", vn, a.V.Where(pop.Pos()), "stack shortened by one", "popRecovery does not shorten the stack by exactly one on every path")
 }
 
 // emittedPairs extracts, from a builder writer, the sequence of (emitted key, source expression) pairs:
